@@ -12,6 +12,8 @@ From Coq Require Import List Arith Bool Lia.
 Import ListNotations.
 From WG Require Import Algo.EssSpec.
 
+Module EssM.
+
 Definition tab (n : nat) (f : nat -> nat) : list nat := map f (seq 0 n).
 Definition upd (l : list nat) (i x : nat) : list nat :=
   tab (length l) (fun j => if j =? i then x else nth j l 0).
@@ -183,3 +185,7 @@ Definition run_logged_dm (sym : bool) (dm : list (list (option nat))) (n : nat) 
 Definition run_logged (sym : bool) (g : graph) (radial : list bool) (heur loop : list op) (l : level)
     : bool * (counters * ess_out) :=
   run_logged_dm sym (dist_matrix g) (length g) radial heur loop l.
+
+
+End EssM.
+Export EssM.
